@@ -55,8 +55,28 @@ class Undecided(Exception):
     pass
 
 
+def has_effect(ev):
+    """Does an event list contain anything but empty control structure and marks?"""
+    for e in ev:
+        if e[0] == "mark":
+            continue
+        if e[0] == "loop":
+            if has_effect(e[2]):
+                return True
+        elif e[0] == "case":
+            if any(has_effect(x) for _l, x in e[2]):
+                return True
+        else:
+            return True
+    return False
+
+
 def mk_okval(r):
     """Payload of `r?` / unwrap: folds Ok(x)? and Some(x)? immediately."""
+    if isinstance(r, tuple) and r and r[0] == "allok":
+        return mk_okval(r[1][-1])
+    if isinstance(r, tuple) and r and r[0] == "okif":
+        return mk_okval(r[1])
     if isinstance(r, tuple) and r and r[0] == "agg" and r[2] in ("Ok", "Some") and len(r[3]) == 1 \
             and r[1] in ("std::result::Result", "std::option::Option"):
         return r[3][0]
@@ -144,6 +164,9 @@ class Ctx:
         self.noinline = []          # extra regexes of callees that must stay opaque calls
         self.reader = False         # reader mode: applications of nom parser values become events
         self.open_loops = False     # accept loops without a recognisable trip count (body recorded once)
+        self.collect_asserts = False  # record every assert terminator / panicky std call with the facts known there
+        self.asserts = []
+        self.verify_fn = r"verify_macro_impl$"   # fn(cond, ..) -> Result that is Ok iff cond
         self.napply = 0
         self.log_calls = None       # regex: calls whose (name, args, site) are appended to self.calls
         self.calls = []
@@ -171,6 +194,7 @@ class Interp:
         for i in range(1, body.argc + 1):
             self.env[i] = args[i - 1] if args and i - 1 < len(args) and args[i - 1] is not None else ("p", i, ())
         self.veclen = {}
+        self.assume = []
         self._ok = None
         self._ipdom = None
         self.retval = None
@@ -314,6 +338,8 @@ class Interp:
             return ("proj", e, tuple(p))
         if k == "proj":
             return ("proj", e[1], tuple(e[2]) + tuple(p))
+        if k == "okif":
+            return self.proj(e[1], p)
         if k == "ovf":
             if p[0] == ".0":
                 return self.proj(e[1], p[1:])
@@ -361,14 +387,15 @@ class Interp:
                 return inner
             if is_c(inner):
                 return inner
-            return ("cast", rv.get("to"), inner)
+            return ("cast", rv.get("to"), inner, rv.get("from"))
         if k == "bin":
             op = rv["op"].replace("WithOverflow", "")
             if op.endswith("Unchecked"):
                 op = op[:-9]
-            v = mk_bin(op, self.operand(rv["a"]), self.operand(rv["b"]))
+            a_, b_ = self.operand(rv["a"]), self.operand(rv["b"])
+            v = mk_bin(op, a_, b_)
             if rv["op"].endswith("WithOverflow"):
-                return ("ovf", v)
+                return ("ovf", v, op, a_, b_, self.body.op_ty(rv["a"]))
             return v
         if k == "un":
             if rv["op"] == "PtrMetadata":
@@ -481,8 +508,9 @@ class Interp:
             return ("applied", aid, pe)
         if name == "and_then" and re.search(r"^std::(result::Result|option::Option)::<", full) and len(args) == 2 \
                 and isinstance(strip_casts(args[1]), tuple) and strip_casts(args[1])[0] == "closure":
-            # r.and_then(f): on the Ok path the closure runs with r's payload
-            return self.inline_closure(args[1], [mk_okval(args[0])], ev, site)
+            # r.and_then(f): on the Ok path the closure runs with r's payload; the result is Ok iff both are
+            r2 = self.inline_closure(args[1], [mk_okval(args[0])], ev, site)
+            return ("allok", (args[0], r2))
         if name == "map_or_else" and re.search(r"Option", full) and len(args) == 3:
             none_v = self.inline_closure(args[1], [], ev, site, pure=True)
             some_v = self.inline_closure(args[2], [self.proj(args[0], ["@Some", ".0"])], ev, site, pure=True)
@@ -552,13 +580,25 @@ class Interp:
         cb = self.facts.bodies[cid]
         if len(cb.blocks) > 60 or cb.argc != len(args):
             return None
+        na = len(self.ctx.asserts)
         try:
             sub = Interp(self.ctx, cb, args, self.depth + 1)
             ev = sub.run()
-            if any(e[0] not in ("mark",) for e in ev):
+            if has_effect(ev):
+                del self.ctx.asserts[na:]
                 return None
+            if self.ctx.collect_asserts:
+                # assertion sites inside the callee were recorded without the caller's facts: prepend them
+                for rec in self.ctx.asserts[na:]:
+                    rec["assume"] = list(self.assume) + rec["assume"]
+                    rec.setdefault("via", []).append(self.body.id)
+                out_ty = cb.raw.get("output") or ""
+                if sub.assume and re.match(r"^std::(result::Result|option::Option)<", out_ty):
+                    # the callee returns Ok/Some only on paths where these conditions hold
+                    return ("okif", sub.retval, tuple(sub.assume))
             return sub.retval
         except Undecided:
+            del self.ctx.asserts[na:]
             return None
 
     def apply_parser(self, pexpr, params, ev, site):
@@ -636,7 +676,10 @@ class Interp:
             raise Undecided("closure nesting too deep at %s" % site)
         sub = Interp(self.ctx, cb, [clo] + list(params), self.depth + 1)
         sub.veclen = self.veclen
+        sub.assume = self.assume
+        na = len(self.assume)
         sev = sub.run()
+        del self.assume[na:]
         if pure and any(e[0] != "mark" for e in sev):
             raise Undecided("value closure %s performs sink operations" % clo[1])
         ev.extend(sev)
@@ -665,6 +708,70 @@ class Interp:
             v = self.call(bi, t, ev)
             if not t["dst"]["p"]:
                 self.env[t["dst"]["l"]] = v
+
+    def assume_switch(self, t, tgt):
+        """Record what taking the edge to `tgt` of switch `t` implies."""
+        sc = self.operand(t["d"])
+        labs = [v for v, x in t["vals"] if x == tgt]
+        if len(labs) == 1 and t["else"] != tgt:
+            self.assume_eq(sc, labs[0])
+        elif not labs and t["else"] == tgt and len(t["vals"]) == 1:
+            # two-way switch: the other label
+            other = t["vals"][0][0]
+            if t.get("dty") == "bool" or other in (0, 1):
+                self.assume_eq(sc, 1 - other if other in (0, 1) else None, ne=other)
+            else:
+                self.assume.append(("ne", sc, C(other)))
+
+    def assume_eq(self, sc, val, ne=None):
+        if val is None:
+            if ne is not None:
+                self.assume.append(("ne", sc, C(ne)))
+            return
+        s0 = strip_casts(sc)
+        # `r?` continuing: r is Ok
+        if isinstance(s0, tuple) and s0[0] == "discr" and isinstance(s0[1], tuple) and s0[1][0] == "branch" and val == 0:
+            self.assume_ok(s0[1][1])
+            return
+        self.assume.append(("cond", sc, val))
+
+    def assume_ok(self, r):
+        r = strip_casts(r)
+        if not isinstance(r, tuple):
+            return
+        if r[0] == "allok":
+            for x in r[1]:
+                self.assume_ok(x)
+        elif r[0] == "okif":
+            self.assume.extend(r[2])
+            self.assume_ok(r[1])
+        elif r[0] == "call" and re.search(self.ctx.verify_fn, r[1].split("::<")[0]) and r[2]:
+            self.assume.append(("cond", r[2][0], 1))
+        elif r[0] == "case":
+            oks = [lab for lab, v in r[2] if not (isinstance(v, tuple) and v[0] == "agg" and v[2] in ("Err", "None"))]
+            errs = [lab for lab, v in r[2] if isinstance(v, tuple) and v[0] == "agg" and v[2] in ("Err", "None")]
+            if len(oks) == 1 and errs and isinstance(oks[0], int):
+                self.assume_eq(r[1], oks[0])
+                for lab, v in r[2]:
+                    if lab == oks[0]:
+                        self.assume_ok(v)
+
+    def record_assert(self, bi, t):
+        cond = self.operand(t["cond"])
+        goal = None
+        msg = t.get("msg") or ""
+        pl = op_place(t["cond"])
+        if pl is not None and pl["p"] == [".1"]:
+            base = self.env.get(pl["l"])
+            if isinstance(base, tuple) and base[0] == "ovf" and len(base) >= 6:
+                goal = ("noovf", base[2], base[3], base[4], base[5])
+        if goal is None:
+            goal = ("cond", cond, 1 if t.get("exp") else 0)
+        self.ctx.asserts.append({"body": self.body.id, "bb": bi, "msg": msg, "goal": goal, "site": self.body.loc(bi, "term"),
+                                 "assume": list(self.assume)})
+        # having passed the assertion, its condition holds
+        if goal[0] == "cond":
+            self.assume.append(goal)
 
     def loop_of(self, h):
         """Natural loop (set of blocks) with header h in the ok sub-graph, or None."""
@@ -702,11 +809,15 @@ class Interp:
             if t["k"] == "ret":
                 self.retval = self.env.get(0, ("?", "ret"))
                 return bi
+            if t["k"] == "assert" and self.ctx.collect_asserts:
+                self.record_assert(bi, t)
             self.exec_term(bi, ev)
             succ = self.oksucc(bi)
             if len(succ) == 0:
                 raise Undecided("dead end at bb%d of %s" % (bi, b.id))
             if len(succ) == 1:
+                if t["k"] == "switch" and self.ctx.collect_asserts:
+                    self.assume_switch(t, succ[0])
                 bi = succ[0]
                 continue
             # a real branch: case over the switch
@@ -730,7 +841,11 @@ class Interp:
                 self.env = dict(base_env)
                 self.veclen = dict(base_vl)
                 aev = []
+                na = len(self.assume)
+                if self.ctx.collect_asserts:
+                    self.assume_switch(t, tgt)
                 endb = self.seq(tgt, join, aev)
+                del self.assume[na:]
                 lab = self.norm_label(t, labels[tgt], self.variant_count(t))
                 arms.append((lab, aev))
                 envs.append((lab, self.env, self.retval if endb is not None and b.term(endb)["k"] == "ret"
@@ -859,7 +974,11 @@ class Interp:
             for l in carried:
                 self.env[l] = ("lc", lid, l)
         save_marks = self.ctx.nmark
+        na1 = len(self.assume)
+        nas1 = len(self.ctx.asserts)
         desc, cond, _pev, env1 = one_pass(setup1)
+        del self.assume[na1:]
+        del self.ctx.asserts[nas1:]
         steps = {}
         for l in carried:
             v = env1.get(l)
@@ -935,7 +1054,18 @@ class Interp:
                 else:
                     self.env[l] = ("partial", lid, l)
         self.ctx.nmark = save_marks
+        na_loop = len(self.assume)
+        if desc[0] == "range":
+            self.assume.append(("range", ("idx", lid), desc[2], desc[3]))
+        else:
+            self.assume.append(("elemof", ("elem", lid), desc[2]))
         desc2, _cond2, pev, env2 = one_pass(setup2)
+        # what the loop verified about *every* element / index holds for all of them afterwards
+        univ = [f for f in self.assume[na_loop + 1:] if f[0] == "cond"
+                and mentions(f[1], lambda e: isinstance(e, tuple) and len(e) > 1 and e[0] in ("elem", "idx") and e[1] == lid)]
+        del self.assume[na_loop:]
+        for f in univ:
+            self.assume.append(("forall", desc, f[1], f[2]))
         if strided:
             pev = self.destride(pev, strided, desc, h)
         ev.append(("loop", desc, pev))
